@@ -6,7 +6,8 @@
 //! (Euclidean, Manhattan, Minkowski p = 1..8, Hamming over float and integer elements, Mahalanobis)
 //! is called through `Distances::*` / `Distance::distance` on the real library code. Mahalanobis is
 //! additionally built from every small integer SPD covariance matrix, from structured SPD families
-//! up to order 12, and from every full-rank lattice data set of up to 5 rows.
+//! up to order 12, and from every full-rank lattice data set of up to 5 rows — also rescaled by
+//! powers of two (round 2) and shifted by a large common offset vector (round 3).
 //!
 //! The oracle is a double-double evaluation of the closed forms (module `dd`), the metric axioms,
 //! the coincidence clauses and the rejection of mismatched lengths.
@@ -702,6 +703,32 @@ fn mcov_exec<T: Fl>(job: &Job) {
 // ------------------------------------------------------------------------------------------------
 // Mahalanobis from data: one execution = one data set; all pairs and triples of a small query set
 
+/// query points of the from-data families: the lattice itself (d <= 2) or a fixed 8-point subset (d = 3)
+fn cat_points(d: usize) -> Vec<Vec<f64>> {
+    if d <= 2 {
+        cat::data_points(d)
+    } else {
+        vec![vec![0.0, 0.0, 0.0], vec![1.0, 0.0, 0.0], vec![0.0, 1.0, 0.0], vec![0.0, 0.0, 1.0], vec![-1.0, 0.0, 0.0], vec![1.0, 1.0, 1.0], vec![1.0, -1.0, 0.0], vec![-1.0, 1.0, 1.0]]
+    }
+}
+
+/// Round 3 (data with a large common offset): what an *accurate two-pass* covariance cannot avoid.
+/// The computed column mean is mu_j + delta_j with |delta_j| <= u |mu_j| (u = eps_T / 2) at best; the
+/// centred values x_kj - (mu_j + delta_j) are exact (Sterbenz), the first-order terms
+/// delta_i * sum_k (x_kj - mu_j) vanish, and what remains is S + m/(m-1) * delta delta^T, a relative
+/// perturbation of at most m/(m-1) * u^2 |mu|^2 / ||S||_2 of the covariance, hence at most
+/// cond2 * m/(m-1) * |mu|^2 eps_T^2 / (8 ||S||_2) relative of the distance. Allowed here, in units of
+/// eps_T relative to the closed form: cond2 * eps_T * |mu|^2 / spread^2 with spread^2 = the largest
+/// column variance (<= ||S||_2) — 4 to 8 times the bound above; it is 4.4 * d / spread^2 * cond2 at
+/// the largest offsets (1e8 for f64, 4096 for f32) and negligible at the smaller ones. The
+/// differences x - y of the shifted points are exact (Sterbenz), so they add nothing. A one-pass
+/// formula (sum of products minus m * mean * mean) loses |mu|^2 eps_T / spread^2 *relative*, i.e.
+/// 1/eps_T times this allowance.
+fn shift_extra_units<T: Fl>(mu: &[f64], spread2: f64, cond: f64) -> f64 {
+    let mu2: f64 = mu.iter().map(|v| v * v).sum();
+    cond * T::EPS * mu2 / spread2
+}
+
 fn mdata_exec<T: Fl>(job: &Job) {
     let d = job.u("d");
     let m = job.u("m");
@@ -727,8 +754,26 @@ fn mdata_exec<T: Fl>(job: &Job) {
         // round-2 family in the quick tier (data and query points * 2^ds2)
         mc::count("maha_data_rescaled_sets");
     }
-    let rows: Vec<Vec<f64>> = rows_int.iter().map(|r| r.iter().map(|v| T::of(v * ds).f()).collect()).collect();
-    let what = || format!("data rows {:?} [{}]", rows, T::NAME);
+    // round 3: a common offset vector added to every data row and to every query point
+    let off: Option<Vec<f64>> = job.params["off"].as_array().map(|a| a.iter().map(|v| v.as_f64().expect("numeric offset")).collect());
+    if let Some(o) = &off {
+        assert!(o.len() == d && ds == 1.0, "shifted family: one offset per column, unit data scale");
+    }
+    let shift = |j: usize| off.as_ref().map(|o| o[j]).unwrap_or(0.0);
+    let rows: Vec<Vec<f64>> = rows_int.iter().map(|r| r.iter().enumerate().map(|(j, v)| T::of(v * ds + shift(j)).f()).collect()).collect();
+    if off.is_some() {
+        // the lattice must survive the shift exactly in T (spacing 1 stays spacing 1)
+        for (r, ri) in rows.iter().zip(&rows_int) {
+            for j in 0..d {
+                assert!(r[j] - shift(j) == ri[j] && T::of(shift(j)).f() == shift(j), "offset {:?} does not keep the lattice exact in {}", off, T::NAME);
+            }
+        }
+        mc::count("maha_data_shifted_sets");
+    }
+    let what = || match &off {
+        None => format!("data rows {:?} [{}]", rows, T::NAME),
+        Some(o) => format!("data rows {:?} = lattice rows {:?} + common offset {:?} [{}]", rows, rows_int, o, T::NAME),
+    };
     let md = match mc::guard(|| Distances::mahalanobis(&mc_sc::dm::<T>(&rows))) {
         Ok(v) => v,
         Err(p) => {
@@ -739,19 +784,46 @@ fn mdata_exec<T: Fl>(job: &Job) {
     let cov = dd::sample_cov(&rows);
     let covf: cat::Mat = cov.iter().map(|r| r.iter().map(|v| v.to_f64()).collect()).collect();
     let cond = cond2_any_scale(&covf);
+    // shifted family: the library built from the unshifted lattice rows (for the agreement clause),
+    // and a machinery check that the double-double reference itself is translation invariant here
+    let mut unshifted: Option<(Mahalanobis<T, DenseMatrix<T>>, Cat<T>)> = None;
+    // extra tolerance units of the shifted family (0 for every older job), see `shift_extra_units`
+    let mut extra_units = 0.0;
+    if off.is_some() {
+        let rows0: Vec<Vec<f64>> = rows_int.iter().map(|r| r.iter().map(|v| T::of(*v).f()).collect()).collect();
+        let cov0 = dd::sample_cov(&rows0);
+        for a in 0..d {
+            for b in 0..d {
+                let (s, u) = (cov[a][b], cov0[a][b]);
+                let err = s.sub(u).to_f64().abs();
+                assert!(err <= 1e-20 * (cov0[a][a].to_f64() * cov0[b][b].to_f64()).sqrt(), "reference covariance not translation invariant: {:?} vs {:?} for rows {:?}", s, u, rows);
+            }
+        }
+        let mu: Vec<f64> = (0..d).map(|j| rows.iter().map(|r| r[j]).sum::<f64>() / m as f64).collect();
+        let spread2 = (0..d).fold(0.0f64, |s, j| s.max(covf[j][j]));
+        extra_units = shift_extra_units::<T>(&mu, spread2, cond);
+        match mc::guard(|| Distances::mahalanobis(&mc_sc::dm::<T>(&rows0))) {
+            Ok(v) => unshifted = Some((v, build_cat::<T>(cat_points(d).into_iter().map(|v| (String::new(), v)).collect(), 1.0))),
+            Err(p) => {
+                viol!("mahalanobis.new:panic", format!("data rows {:?} [{}]: {}", rows0, T::NAME, p.brief()));
+                return;
+            }
+        }
+    }
     let Some(inv) = dd::inverse(&cov) else { panic!("reference inverse failed for full-rank data {:?}", rows) };
     let inv_max = inv.iter().flatten().fold(0.0f64, |m, v| m.max(v.hi.abs()));
     // query points: the lattice itself (d <= 2) or a fixed 8-point subset (d = 3), scaled like the data
-    let qraw: Vec<Vec<f64>> = if d <= 2 {
-        pts.clone()
-    } else {
-        vec![vec![0.0, 0.0, 0.0], vec![1.0, 0.0, 0.0], vec![0.0, 1.0, 0.0], vec![0.0, 0.0, 1.0], vec![-1.0, 0.0, 0.0], vec![1.0, 1.0, 1.0], vec![1.0, -1.0, 0.0], vec![-1.0, 1.0, 1.0]]
-    };
-    let q = build_cat::<T>(qraw.into_iter().map(|v| (String::new(), v)).collect(), ds);
+    let qraw: Vec<Vec<f64>> = cat_points(d).into_iter().map(|v| v.iter().enumerate().map(|(j, x)| x * ds + shift(j)).collect()).collect();
+    let q = build_cat::<T>(qraw.into_iter().map(|v| (String::new(), v)).collect(), 1.0);
     let nq = q.typed.len();
-    let units = maha_tol_units(d, cond);
+    let units = maha_tol_units(d, cond) + extra_units;
+    let units0 = maha_tol_units(d, cond);
     let mut dist = vec![vec![f64::NAN; nq]; nq];
     let mut digest = 0x19u64;
+    let (mut shifted_ok, mut shifted_agree, mut shifted_bit_equal) = (0u64, 0u64, 0u64);
+    let (mut base_buckets, mut base_buckets_big) = ([0u64; 5], [0u64; 5]);
+    // a column offset at which |mean|^2 eps_T is of order one (1e8 for f64, 4096 for f32)
+    let off_big = off.as_ref().map(|o| o.iter().any(|v| v * v * T::EPS >= 1.0)).unwrap_or(false);
     for i in 0..nq {
         for j in 0..nq {
             let (xv, yv) = (&q.vals[i], &q.vals[j]);
@@ -763,8 +835,50 @@ fn mdata_exec<T: Fl>(job: &Job) {
             let o = judge_pair::<T>("mahalanobis", "Mahalanobis(from data)", class, df.zero, [call(i, j), call(j, i), call(i, i)], refv, units, &ctx);
             dist[i][j] = o.dxy;
             digest = mc::hash::mix(digest, mc::hash::canon_bits(o.dxy));
+            if let Some((md0, q0)) = &unshifted {
+                // agreement with the library's own result on the unshifted data and points
+                if !df.zero && !o.dxy.is_nan() {
+                    match mc::guard(|| md0.distance(&q0.typed[i], &q0.typed[j]).f()) {
+                        Ok(d0) => {
+                            let tol0 = units0 * T::EPS * refv;
+                            if !((o.dxy - d0).abs() <= o.tol + tol0 || o.dxy == d0) {
+                                viol!(
+                                    site("mahalanobis", "translation-invariance", class),
+                                    format!("Mahalanobis(from data) {}: d(x,y) = {:e} but the unshifted data set {:?} and points x={:?} y={:?} give {:e} (closed form of both {:e}; allowed difference {:.3e})", ctx(), o.dxy, rows_int, q0.vals[i], q0.vals[j], d0, refv, o.tol + tol0),
+                                );
+                            } else {
+                                shifted_agree += 1;
+                                if o.dxy.to_bits() == d0.to_bits() {
+                                    shifted_bit_equal += 1;
+                                }
+                            }
+                        }
+                        Err(p) => viol!("mahalanobis.distance:panic", format!("Mahalanobis(from data) rows {:?} x={:?} y={:?} [{}]: {}", rows_int, q0.vals[i], q0.vals[j], T::NAME, p.brief())),
+                    }
+                    if o.ok && class.is_none() && o.dxy > 0.0 && o.dxy.is_finite() {
+                        shifted_ok += 1;
+                        // calibration: how much of the tolerance of the *unshifted* families
+                        // (without the mean-rounding allowance) the library uses on shifted data
+                        let r0 = (o.dxy - refv).abs() / (units0 * T::EPS * refv);
+                        let b = if r0 > 1.0 { 0 } else if r0 > 0.5 { 1 } else if r0 > 0.25 { 2 } else if r0 > 0.125 { 3 } else { 4 };
+                        base_buckets[b] += 1;
+                        if off_big {
+                            base_buckets_big[b] += 1;
+                        }
+                    }
+                }
+            }
         }
     }
+    for (b, name) in ["shifted_err_gt_unshifted_tol", "shifted_err_gt_1/2_unshifted_tol", "shifted_err_gt_1/4_unshifted_tol", "shifted_err_gt_1/8_unshifted_tol"].iter().enumerate() {
+        mc::count_n(*name, base_buckets[b]);
+    }
+    for (b, name) in ["largest_offset_err_gt_unshifted_tol", "largest_offset_err_gt_1/2_unshifted_tol", "largest_offset_err_gt_1/4_unshifted_tol", "largest_offset_err_gt_1/8_unshifted_tol", "largest_offset_err_le_1/8_unshifted_tol"].iter().enumerate() {
+        mc::count_n(*name, base_buckets_big[b]);
+    }
+    mc::count_n("maha_data_shifted_pairs_in_tolerance", shifted_ok);
+    mc::count_n("maha_data_shifted_pairs_agree_with_unshifted", shifted_agree);
+    mc::count_n("maha_data_shifted_pairs_bit_equal_to_unshifted", shifted_bit_equal);
     mc::count_n("pair_metric_checks", (nq * nq) as u64);
     mc::count_n("pairs_distinct_vectors", (nq * nq - nq) as u64);
     let rel = units * T::EPS;
@@ -789,7 +903,7 @@ fn mdata_exec<T: Fl>(job: &Job) {
     mc::count_n("triangle_tight", tight);
     mc::nontrivial();
     mc::outcome(digest);
-    mc::describe(|| json!({"family": "mahalanobis from data", "type": T::NAME, "rows": rows, "sample_covariance": covf, "cond2": cond, "query_points": q.vals, "library_distances": dist}));
+    mc::describe(|| json!({"family": "mahalanobis from data", "type": T::NAME, "rows": rows, "common_offset": off, "sample_covariance": covf, "cond2": cond, "query_points": q.vals, "library_distances": dist}));
 }
 
 // ------------------------------------------------------------------------------------------------
@@ -898,6 +1012,27 @@ fn rescale_exponents(ty: &str) -> &'static [i64] {
     } else {
         &[-40, -60, 40, 60]
     }
+}
+
+/// Round 3: the common offset vectors of the shifted from-data families (one entry per column).
+/// Equal offsets 1e3, 1e6, 1e8 (f64) / 100, 1000, 4096 (f32) in every coordinate — with lattice
+/// spacing 1 that is |mean|/spread up to 1e8 resp. 4096, where |mean|^2 eps is about 2 — and vectors
+/// with a different offset (sign, magnitude) per coordinate. Every entry and every entry ± 2 is an
+/// integer exactly representable in the type.
+fn shift_offsets(ty: &str, d: usize) -> Vec<Vec<f64>> {
+    let (equal, mixed): (&[f64], &[f64]) = if ty == "f32" { (&[100.0, 1000.0, 4096.0], &[1000.0, -300.0, 4096.0]) } else { (&[1e3, 1e6, 1e8], &[1e6, -3e5, 1e8]) };
+    let mut out: Vec<Vec<f64>> = equal.iter().map(|o| vec![*o; d]).collect();
+    match d {
+        // d = 1: a negative offset as the fourth member
+        1 => out.push(vec![mixed[1]]),
+        // (1e6, -3e5), and one hugely offset column next to a centred one
+        2 => {
+            out.push(vec![mixed[0], mixed[1]]);
+            out.push(vec![0.0, mixed[2]]);
+        }
+        _ => out.push((0..d).map(|j| mixed[j % 3]).collect()),
+    }
+    out
 }
 
 const ALL_SCALES: &[i64] = &[0, -6, 6];
@@ -1073,6 +1208,28 @@ impl Harness for C17 {
             data.push((*d, *m, *ordered, DS_X64, F64));
             data.push((*d, *m, *ordered, if t { DS_X32T } else { DS_X32 }, F32));
         }
+        // ---- round 3: the same data sets and query points shifted by a common offset vector
+        // (translation invariance of the distance built from data; lattice spacing stays 1)
+        let shifted_shapes: &[(usize, usize, bool)] = if t {
+            &[(1, 2, true), (1, 3, true), (1, 4, true), (1, 5, true), (2, 3, true), (2, 4, true), (2, 5, true), (2, 6, true), (2, 7, false), (3, 4, true), (3, 5, false)]
+        } else {
+            &[(1, 2, true), (1, 3, true), (1, 4, true), (2, 3, true), (2, 4, true), (2, 5, true)]
+        };
+        let mut shifted_jobs: Vec<Job> = Vec::new();
+        for (d, m, ordered) in shifted_shapes {
+            let np = cat::data_points(*d).len();
+            for ty in TYPES {
+                for off in shift_offsets(ty, *d) {
+                    let label = off.iter().map(|v| format!("{:e}", v)).collect::<Vec<_>>().join(",");
+                    for r0 in 0..np {
+                        shifted_jobs.push(Job::new(
+                            format!("mdata-shifted-d{}-m{}-{}-off({})-{}-first{}", d, m, if *ordered { "sequences" } else { "multisets" }, label, ty, r0),
+                            json!({"kind": "mdata", "d": d, "m": m, "ordered": ordered, "ds2": 0, "ty": ty, "r0": r0, "off": off}),
+                        ));
+                    }
+                }
+            }
+        }
         for (d, m, ordered, dscales, types) in &data {
             let np = cat::data_points(*d).len();
             for ds2 in dscales.iter() {
@@ -1086,6 +1243,7 @@ impl Harness for C17 {
                 }
             }
         }
+        jobs.extend(shifted_jobs);
         Plan {
             jobs,
             budget_s: if t { 2700 } else { 40 },
@@ -1107,6 +1265,9 @@ impl Harness for C17 {
                 ("maha_cov_rescaled_pairs", 100_000),
                 ("maha_cov_rescaled_pairs_in_tolerance", 100_000),
                 ("maha_data_rescaled_sets", 100_000),
+                ("maha_data_shifted_sets", 100_000),
+                ("maha_data_shifted_pairs_in_tolerance", 10_000_000),
+                ("maha_data_shifted_pairs_agree_with_unshifted", 10_000_000),
             ],
             bounds: json!({
                 "types": "f64 and f32 for every family",
@@ -1119,6 +1280,7 @@ impl Harness for C17 {
                 "mahalanobis_covariance": format!("every integer SPD 2x2 with |entries|<=3 on S5^2; every integer SPD 3x3 with {} and cond2<=1e4 on S3^3; structured SPD families (identity, Toeplitz(2,-1), min(i,j), rank-one+ridge, graded diagonal, D*T*D) of order 4..{}; covariance scaled by 2^k, k in {:?}; vector scales 1, 1e-6, 1e6", if t { "diag 1..3, off-diag in -2..2" } else { "diag 1..2, off-diag in -1..1" }, if t { 12 } else { 8 }, cov_scales),
                 "mahalanobis_data": format!("rows from S5 (d=1) / S3^d (d=2,3); (d, m, sequences|multisets, data scales 2^k, types): {:?}; every data set with positive-definite sample covariance; all pairs and triples of the lattice (d<=2) / 8 fixed points (d=3) as arguments", data.iter().map(|(d, m, o, sc, ty)| format!("d={} m={} {} 2^{:?} {}", d, m, if *o { "sequences" } else { "multisets" }, sc, ty.join("+"))).collect::<Vec<_>>()),
                 "mahalanobis_tiny_and_huge_scales": format!("round 2 — new_from_covariance: every integer SPD 2x2 with |entries|<=3{} times 2^k with the query lattice times 2^(k/2), k in {:?} (f64) / {:?} (f32), all pairs and triples; from-data constructor: the (d, m) families {:?} with data rows and query points times 2^k, k in {:?} (f64) / {:?} (f32){}; same double-double closed form and the same (8+2n^2)*cond2 eps relative tolerance (cond2 is scale-invariant)", if t { " and every integer SPD 3x3 of the thorough set" } else { "" }, rescale_exponents("f64"), rescale_exponents("f32"), rescaled_shapes.iter().map(|(d, m, o)| format!("d={} m={} {}", d, m, if *o { "sequences" } else { "multisets" })).collect::<Vec<_>>(), DS_X64, DS_X32, if t { " (f32 at 2^±20 is part of the older data-scale list)" } else { "" }),
+                "mahalanobis_data_common_offset": format!("round 3 — from-data constructor on the (d, m) families {:?} (every sequence / multiset of lattice rows with positive-definite sample covariance) with one common offset vector added to every data row and every query point, lattice spacing 1 kept exactly: offsets f64 d=1 {:?}, d=2 {:?}{}; f32 d=1 {:?}, d=2 {:?}{}; all ordered pairs and triples of the shifted query points; closed form (double-double, checked to be translation invariant to 1e-20), symmetry, d(x,x)=0, triangle, and agreement with the library's result on the unshifted data; tolerance (8+2d^2)*cond2 + cond2*eps*|mean|^2/max column variance, in eps relative", shifted_shapes.iter().map(|(d, m, o)| format!("d={} m={} {}", d, m, if *o { "sequences" } else { "multisets" })).collect::<Vec<_>>(), shift_offsets("f64", 1), shift_offsets("f64", 2), if t { format!(", d=3 {:?}", shift_offsets("f64", 3)) } else { String::new() }, shift_offsets("f32", 1), shift_offsets("f32", 2), if t { format!(", d=3 {:?}", shift_offsets("f32", 3)) } else { String::new() }),
                 "mismatched_lengths": "every metric x lengths 0..4 x 0..4 (Mahalanobis of order 1..3) x {prefix-consistent, distinct} contents",
                 "seed": format!("perturbation {:?} (a*v+b) of the lattice alphabets", cat::perturbation(seed)),
             }),
@@ -1138,6 +1300,7 @@ impl Harness for C17 {
             "closed forms are evaluated in double-double arithmetic on exact coordinate differences, rescaled by a power of two (self-tested against exact integer arithmetic at start-up)".into(),
             "'up to rounding' = (8+n) eps for Euclidian/Manhattan, (8+n+|ln d|) eps for Minkowski, 2 eps for Hamming, (8+2n^2)*cond2 eps for Mahalanobis, relative to the closed form; the triangle inequality and symmetry get three times / once that slack".into(),
             "covariance from data = unbiased sample covariance (denominator m-1)".into(),
+            "data with a common offset (round 3): the Mahalanobis allowance grows by cond2 * eps * |column means|^2 / (largest column variance) units — the second-order effect of a column mean that is off by up to eps*|mean|, which no two-pass covariance can avoid; the differences x - y of the shifted points are exact. A one-pass covariance is off by 1/eps times that".into(),
             "rejection of mismatched lengths = panic (the API returns a bare number)".into(),
             "no library RNG is involved in this property".into(),
         ]
